@@ -110,10 +110,18 @@ def showOutcome (R : Router) (o : Outcome) (viaRouter : Bool := true) : String :
     let u (flag : Bool) : Bytes :=
       if viaRouter then (R.urlPath nm (pairs (if flag then "true" else "false"))).getD (Bytes.ofString "\x00na")
       else urlPath l.route vals flag
+    -- `ux=`: the URL of the first OTHER named route, built without any value (binds stay visible as `{bind}`)
+    let ux : String :=
+      if !viaRouter then ""
+      else match R.named.find? (fun p => p.1 != nm) with
+        | some (other, _) => " ux=" ++ (match R.urlPath other [] with
+            | some b => if b.isEmpty then "-" else b.toHex
+            | none => (Bytes.ofString "\x00panic").toHex)
+        | none => " ux=-"
     -- `all=`: every key the matcher wrote while serving THIS request (values of abandoned branches included): what the
     -- handler's map may contain at most — a key or value from anywhere else (an earlier request) is a leak
     let allKeys := (ps.map (·.1)).eraseDups.filter (· != B "route")
-    s!"h {l.hid} long={if l.long then 1 else 0} {showParams ps names} route={(ps.get? (B "route")).getD [] |>.toHex} u0={(u false).toHex} u1={(u true).toHex} all={if allKeys.isEmpty then "-" else showParams ps allKeys}"
+    s!"h {l.hid} long={if l.long then 1 else 0} {showParams ps names} route={(ps.get? (B "route")).getD [] |>.toHex} u0={(u false).toHex} u1={(u true).toHex}{ux} all={if allKeys.isEmpty then "-" else showParams ps allKeys}"
 
 structure St where
   R : Router := Router.new
